@@ -709,6 +709,25 @@ pub fn bclr(
     Ok(())
 }
 
+pub fn blr(control_flow_graph: &mut ControlFlowGraph, _: &capstone::Instr) -> Result<(), Error> {
+    let block_index = {
+        let block = control_flow_graph.new_block()?;
+
+        // the two low-order bits of the link register are ignored
+        block.branch(Expression::and(
+            expr_scalar("lr", 32),
+            expr_const(0xffff_fffc, 32),
+        )?);
+
+        block.index()
+    };
+
+    control_flow_graph.set_entry(block_index)?;
+    control_flow_graph.set_exit(block_index)?;
+
+    Ok(())
+}
+
 pub fn bctr(control_flow_graph: &mut ControlFlowGraph, _: &capstone::Instr) -> Result<(), Error> {
     // get operands
     let block_index = {
